@@ -2,6 +2,7 @@ package rules
 
 import (
 	"go/token"
+	"go/types"
 	"strings"
 
 	"kmcheck/internal/km"
@@ -153,6 +154,46 @@ func checkC13(c *km.Ctx) {
 		}
 	}
 	r.Add("R-C13-1", km.FuncName(vf), "nothing configured => false", c.P.Pos(vf.Pos()), "a client with neither domains nor patterns never gets a redirect", sprintf("%v", entryFalse), entryFalse)
+
+	// the client's allow-lists are what the operator wrote: nothing in the server rewrites them after the
+	// configuration is parsed (dropping a pattern turns a "domain AND pattern" client into a domain-only one)
+	{
+		nFields := 0
+		if pk := c.P.Pkg("cmd/keymasterd"); pk != nil {
+			if tn, ok := pk.Pkg.Scope().Lookup("OpenIDConnectClientConfig").(*types.TypeName); ok {
+				if st, ok := tn.Type().Underlying().(*types.Struct); ok {
+					for i := 0; i < st.NumFields(); i++ {
+						if n := st.Field(i).Name(); n == "AllowedRedirectURLRE" || n == "AllowedRedirectDomains" {
+							nFields++
+						}
+					}
+				}
+			}
+		}
+		if nFields != 2 {
+			r.AnchorLost("R-C13-2", "AllowedRedirectURLRE / AllowedRedirectDomains fields of OpenIDConnectClientConfig")
+		}
+		bad := ""
+		for _, fn := range c.P.AllFuncs {
+			if fn.Pkg == nil || !strings.HasPrefix(fn.Pkg.Pkg.Path(), km.ModPath) {
+				continue
+			}
+			km.Instrs(fn, func(in ssa.Instruction) {
+				if st, ok := in.(*ssa.Store); ok {
+					if fa, ok := st.Addr.(*ssa.FieldAddr); ok && km.NamedTypeOf(fa.X.Type()) == KMD+".OpenIDConnectClientConfig" {
+						if n := fieldNameOf(fa); n == "AllowedRedirectURLRE" || n == "AllowedRedirectDomains" {
+							bad = n + " is rewritten in " + km.FuncName(fn) + " at " + posOf(c, in)
+						}
+					}
+				}
+			})
+		}
+		found := "no store into either list anywhere in the module"
+		if bad != "" {
+			found = bad
+		}
+		r.Add("R-C13-2", "cmd/keymasterd.OpenIDConnectClientConfig", "allow-lists are only ever what the configuration says", "", "no code assigns AllowedRedirectURLRE or AllowedRedirectDomains (they are filled by the configuration parser alone)", found, bad == "")
+	}
 
 	// ---------- R-C13-3 host predicate
 	nTrue := 0
